@@ -257,7 +257,7 @@ static int op_ok(int fam, const char* tok) {
   if (strlen(tok) >= sizeof ls) return 0;
   if (sscanf(tok, "send:%u:%u:%s", &d, &en, ls) == 3) return parse_lens(ls, lens, &n, &tot) && dest_ok(fam, d) && n > 0 && tot_ok(tot);
   if (sscanf(tok, "try:%u:%s", &d, ls) == 2) return parse_lens(ls, lens, &n, &tot) && dest_ok(fam, d) && tot_ok(tot);
-  if (sscanf(tok, "try2:%u:%u:%s", &cnt, &d, ls) == 3) return parse_lens(ls, lens, &n, &tot) && dest_ok(fam, d) && d <= 2 && tot_ok(tot) && cnt <= 4096;
+  if (sscanf(tok, "try2:%u:%u:%s", &cnt, &d, ls) == 3) return parse_lens(ls, lens, &n, &tot) && dest_ok(fam, d) && d <= 3 && tot_ok(tot) && cnt <= 4096;
   return !strcmp(tok, "rstart") || !strcmp(tok, "rstop") || !strcmp(tok, "close");
 }
 static struct sockaddr_storage g_bogus;
